@@ -273,6 +273,17 @@ carquet_status_t carquet_read_data_page_v1(
         num_values = (int32_t)max_values;
     }
 
+    /* Levels are decoded as RLE/bit-packed hybrid with a length prefix; the
+     * deprecated BIT_PACKED level encoding has a different layout and must
+     * not be read as if it were RLE */
+    if ((reader->max_rep_level > 0 && header->repetition_level_encoding != CARQUET_ENCODING_RLE) ||
+        (reader->max_def_level > 0 && header->definition_level_encoding != CARQUET_ENCODING_RLE)) {
+        CARQUET_SET_ERROR(error, CARQUET_ERROR_INVALID_ENCODING,
+            "Unsupported level encoding: def %d, rep %d",
+            header->definition_level_encoding, header->repetition_level_encoding);
+        return CARQUET_ERROR_INVALID_ENCODING;
+    }
+
     /* Decode repetition levels if needed */
     if (reader->max_rep_level > 0 && rep_levels) {
         /* Read 4-byte length prefix */
